@@ -1,3 +1,6 @@
--- This module serves as the root of the `SpowtdModel` library.
--- Import modules here that should be built as part of the library.
-import SpowtdModel.Basic
+import SpowtdModel.Model.Num
+import SpowtdModel.Model.Runs
+import SpowtdModel.Model.Matching
+import SpowtdModel.Model.Classify
+import SpowtdModel.Driver.Codec
+import SpowtdModel.Driver.ClassifyCmd
